@@ -761,11 +761,29 @@ class Condition(ConditionLike):
                 f"{self.callable.kwargs!r} cannot be written in JSON form."
             )
 
-        out = {key: spec_val}
+        out = {key: self._args_to_json_like(spec_val)}
         if "shared_data" in kwargs:
             return out, kwargs["shared_data"]
         else:
             return out
+
+    @classmethod
+    def _args_to_json_like(cls, arg, _check_items=True):
+        """Encode `DataPath` arguments as data path specs, and escape literal mappings
+        that `from_spec` would otherwise read back as data path specs. As in `from_spec`,
+        the argument itself and its items (one level) are considered."""
+        if isinstance(arg, valida.datapath.DataPath):
+            return arg.to_spec()
+        if isinstance(arg, dict) and len(arg) == 1:
+            arg_key = next(iter(arg))
+            if isinstance(arg_key, str) and arg_key.split(".")[0] == "path":
+                return {f"\\{arg_key}": arg[arg_key]}
+        if _check_items:
+            if isinstance(arg, dict):
+                return {k: cls._args_to_json_like(v, False) for k, v in arg.items()}
+            elif isinstance(arg, (list, tuple)):
+                return [cls._args_to_json_like(i, False) for i in arg]
+        return arg
 
 
 class FilterDatumType(enum.Enum):
